@@ -1733,3 +1733,375 @@ Qed.
    entry nobody refers to); with a quoted static literal the ids start behind the literals.  Both need the evaluation
    theorem (Proofs/FlatIndexProofs.v / FlatEngine.v) for SDicts whose leaves share table entries resp. whose table has
    unreferenced entries, and the lexer / parser sections of Proofs/FlatParseProofs.v for sources with repeated texts. *)
+
+(* ================================================================================================== *)
+(* added from Properties/C05_add2.v (2026-10-01)                                              *)
+(* ================================================================================================== *)
+(* C05, additions (2): plain references to values of ANY type -- strings (any characters), floats, booleans, None,
+   lists, nested dicts --, whole documents, chains of references, any order of the entries; and a reference to a key
+   that is declared in an included file only.
+   Vocabulary (Proofs/RefAnyProofs.v):
+     rdoc            a document: list of (name, VLit tree | VRef id target)   -- "name value;" / "name $target;"
+     ref_sdict d     the SDict the parser delivers for d: every reference is an EXPRESSIONnnnnnn placeholder leaf, the
+                     table of expressions holds ("$target", placeholder) in document order
+     denote_ref d y  the literal the chain of references starting at y ends in (depth: number of entries); None when
+                     the chain reaches an undeclared name or runs in a cycle
+     ref_value d y   denote_ref d y, except that the literal None counts as unresolved (the library leaves "$y")
+     ref_result d    the data after reading: literals unchanged, a reference holds [ref_value], else its text "$target"
+     rdoc_okb d      the side conditions, a boolean (see the _finding examples below) *)
+From Coq Require Import String.
+From Coq Require Import NArith ZArith List Bool Permutation.
+From DictIO Require Import Chars Str Value Scalar KeyPath SDict Layout Lexer TokParser Reader Expr Eval
+     MiscSpec EvalSpec FlatSpec IndexSpec RefAnyProofs.
+Import ListNotations.
+Local Open Scope string_scope.
+
+(* ---- 1. whole documents of plain references, values of any type ----------------------------------------------- *)
+(* the reader answers; literals are unchanged; every reference whose chain ends in a literal holds exactly that tree
+   (no re-typing, no evaluation); a dangling or cyclic reference -- and a reference to None -- keeps its text; the
+   order of the entries is kept; the table of expressions is empty *)
+Theorem C05_reference_document_any_type : forall d lc bc inc, rdoc_okb d = true ->
+  eval_expressions (ref_sdict d lc bc inc) = Some (Ok (mkSD (ref_result d) lc bc inc [])).
+Proof. exact reference_document_any_type. Qed.
+Print Assumptions C05_reference_document_any_type.
+
+(* the same, read key by key *)
+Theorem C05_reference_value_any_type : forall d lc bc inc, rdoc_okb d = true ->
+  exists s', eval_expressions (ref_sdict d lc bc inc) = Some (Ok s') /\ sd_expr s' = [] /\
+    map fst (sd_data s') = map KS (map fst d) /\
+    (forall x t, In (x, VLit t) d -> alookup (KS x) (sd_data s') = Some t) /\
+    (forall x i y t, In (x, VRef i y) d -> denote_ref d y = Some t -> t <> Leaf SNone ->
+       alookup (KS x) (sd_data s') = Some t) /\
+    (forall x i y, In (x, VRef i y) d -> denote_ref d y = None \/ denote_ref d y = Some (Leaf SNone) ->
+       alookup (KS x) (sd_data s') = Some (Leaf (SStr (ref_of y)))).
+Proof. exact reference_value_any_type. Qed.
+Print Assumptions C05_reference_value_any_type.
+
+Definition ra_s (s : string) : str := of_string s.
+Definition ra_str (s : string) : tree := Leaf (SStr (of_string s)).
+(* b $a; a "x 'y' ""z"" #;{"; c $b; l (1 2.5 ('q')); m $l; n NULL; o $n; t true; u $t; f 2.50; g $f;
+   sub { k 5; s ( { kk NULL; } ); } h $sub; z $zz; p $q; q $p; self $self; toself $self; cc $c;
+   -- forward and backward references, chains of depth 3 (cc -> c -> b -> a), a string with blanks, both quotes and
+   structure characters, float, bool, None, nested list, dict with a list of dicts, dangling, cycle, self reference *)
+Definition ra_doc : rdoc :=
+  [ (ra_s "b", VRef 5 (ra_s "a")); (ra_s "a", VLit (ra_str "x 'y' ""z"" #;{"));
+    (ra_s "c", VRef 6 (ra_s "b"));
+    (ra_s "l", VLit (Lst [Leaf (SInt 1); Leaf (SFloat (ra_s "2.5")); Lst [ra_str "q"]]));
+    (ra_s "m", VRef 7 (ra_s "l")); (ra_s "n", VLit (Leaf SNone)); (ra_s "o", VRef 8 (ra_s "n"));
+    (ra_s "t", VLit (Leaf (SBool true))); (ra_s "u", VRef 9 (ra_s "t"));
+    (ra_s "f", VLit (Leaf (SFloat (ra_s "2.50")))); (ra_s "g", VRef 17 (ra_s "f"));
+    (ra_s "sub", VLit (Dict [(KS (ra_s "k"), Leaf (SInt 5)); (KS (ra_s "s"), Lst [Dict [(KS (ra_s "kk"), Leaf SNone)]])]));
+    (ra_s "h", VRef 10 (ra_s "sub")); (ra_s "z", VRef 11 (ra_s "zz")); (ra_s "p", VRef 12 (ra_s "q"));
+    (ra_s "q", VRef 13 (ra_s "p")); (ra_s "self", VRef 14 (ra_s "self")); (ra_s "toself", VRef 15 (ra_s "self"));
+    (ra_s "cc", VRef 16 (ra_s "c")) ].
+
+Example C05_reference_document_any_type_nonvacuous :
+  rdoc_okb ra_doc = true /\
+  eval_expressions (ref_sdict ra_doc [] [] []) = Some (Ok (mkSD (ref_result ra_doc) [] [] [] [])) /\
+  length (sd_expr (ref_sdict ra_doc [] [] [])) = 13%nat /\
+  ref_result ra_doc =
+  [ (KS (ra_s "b"), ra_str "x 'y' ""z"" #;{"); (KS (ra_s "a"), ra_str "x 'y' ""z"" #;{");
+    (KS (ra_s "c"), ra_str "x 'y' ""z"" #;{");
+    (KS (ra_s "l"), Lst [Leaf (SInt 1); Leaf (SFloat (ra_s "2.5")); Lst [ra_str "q"]]);
+    (KS (ra_s "m"), Lst [Leaf (SInt 1); Leaf (SFloat (ra_s "2.5")); Lst [ra_str "q"]]);
+    (KS (ra_s "n"), Leaf SNone); (KS (ra_s "o"), ra_str "$n");
+    (KS (ra_s "t"), Leaf (SBool true)); (KS (ra_s "u"), Leaf (SBool true));
+    (KS (ra_s "f"), Leaf (SFloat (ra_s "2.50"))); (KS (ra_s "g"), Leaf (SFloat (ra_s "2.50")));
+    (KS (ra_s "sub"), Dict [(KS (ra_s "k"), Leaf (SInt 5)); (KS (ra_s "s"), Lst [Dict [(KS (ra_s "kk"), Leaf SNone)]])]);
+    (KS (ra_s "h"), Dict [(KS (ra_s "k"), Leaf (SInt 5)); (KS (ra_s "s"), Lst [Dict [(KS (ra_s "kk"), Leaf SNone)]])]);
+    (KS (ra_s "z"), ra_str "$zz"); (KS (ra_s "p"), ra_str "$q"); (KS (ra_s "q"), ra_str "$p");
+    (KS (ra_s "self"), ra_str "$self"); (KS (ra_s "toself"), ra_str "$self");
+    (KS (ra_s "cc"), ra_str "x 'y' ""z"" #;{") ].
+Proof.
+  assert (H : rdoc_okb ra_doc = true) by (vm_compute; reflexivity).
+  refine (conj H (conj (C05_reference_document_any_type ra_doc [] [] [] H) _)).
+  split; vm_compute; reflexivity.
+Qed.
+
+Example C05_reference_value_any_type_nonvacuous :
+  exists s', eval_expressions (ref_sdict ra_doc [] [] []) = Some (Ok s') /\ sd_expr s' = [] /\
+    alookup (KS (ra_s "cc")) (sd_data s') = Some (ra_str "x 'y' ""z"" #;{") /\
+    alookup (KS (ra_s "g")) (sd_data s') = Some (Leaf (SFloat (ra_s "2.50"))) /\
+    alookup (KS (ra_s "u")) (sd_data s') = Some (Leaf (SBool true)) /\
+    alookup (KS (ra_s "q")) (sd_data s') = Some (ra_str "$p") /\
+    alookup (KS (ra_s "o")) (sd_data s') = Some (ra_str "$n") /\
+    alookup (KS (ra_s "l")) (sd_data s') = Some (Lst [Leaf (SInt 1); Leaf (SFloat (ra_s "2.5")); Lst [ra_str "q"]]).
+Proof.
+  assert (H : rdoc_okb ra_doc = true) by (vm_compute; reflexivity).
+  destruct (C05_reference_value_any_type ra_doc [] [] [] H) as [s' [He [Hx [_ [Hl [Hr Hu]]]]]].
+  exists s'. split; [exact He|]. split; [exact Hx|].
+  split; [apply (Hr (ra_s "cc") 16%N (ra_s "c")); [unfold ra_doc; cbn [In]; tauto | vm_compute; reflexivity | discriminate]|].
+  split; [apply (Hr (ra_s "g") 17%N (ra_s "f")); [unfold ra_doc; cbn [In]; tauto | vm_compute; reflexivity | discriminate]|].
+  split; [apply (Hr (ra_s "u") 9%N (ra_s "t")); [unfold ra_doc; cbn [In]; tauto | vm_compute; reflexivity | discriminate]|].
+  split; [apply (Hu (ra_s "q") 13%N (ra_s "p")); [unfold ra_doc; cbn [In]; tauto | left; vm_compute; reflexivity]|].
+  split; [apply (Hu (ra_s "o") 8%N (ra_s "n")); [unfold ra_doc; cbn [In]; tauto | right; vm_compute; reflexivity]|].
+  apply Hl. unfold ra_doc; cbn [In]; tauto.
+Qed.
+
+(* the real front end delivers [ref_sdict] of a document (ids in the order of appearance, after the three quoted
+   strings that take the numbers 0 1 2), and read_full gives the
+   result of the theorem: strings, float, bool, None, list, nested dict, chain, forward reference, dangling, cycle *)
+Definition ra_file_doc : rdoc :=
+  [ (ra_s "b", VRef 3 (ra_s "a")); (ra_s "a", VLit (ra_str "x y"));
+    (ra_s "c", VRef 4 (ra_s "b"));
+    (ra_s "l", VLit (Lst [Leaf (SInt 1); Leaf (SFloat (ra_s "2.5")); ra_str "q"]));
+    (ra_s "m", VRef 5 (ra_s "l")); (ra_s "n", VLit (Leaf SNone)); (ra_s "o", VRef 6 (ra_s "n"));
+    (ra_s "t", VLit (Leaf (SBool true))); (ra_s "u", VRef 7 (ra_s "t"));
+    (ra_s "f", VLit (Leaf (SFloat (ra_s "2.50")))); (ra_s "g", VRef 8 (ra_s "f"));
+    (ra_s "sub", VLit (Dict [(KS (ra_s "k"), Leaf (SInt 5)); (KS (ra_s "s"), ra_str "it")]));
+    (ra_s "h", VRef 9 (ra_s "sub")); (ra_s "z", VRef 10 (ra_s "zz")); (ra_s "p", VRef 11 (ra_s "q"));
+    (ra_s "q", VRef 12 (ra_s "p")) ].
+Example C05_reference_document_any_type_reader :
+  let text := of_string "b $a; a 'x y'; c $b; l (1 2.5 'q'); m $l; n NULL; o $n; t true; u $t; f 2.50; g $f; sub { k 5; s 'it'; } h $sub; z $zz; p $q; q $p;
+" in
+  let fs : fsys := [(of_string "/w/root", FNative text)] in
+  rdoc_okb ra_file_doc = true /\
+  (match fs_lookup (norm_path (of_string "/w/root")) fs with
+   | Some u => match parse_unit false (of_string "/w/root") (-1) u with
+               | Ok pr => pr_sd pr = ref_sdict ra_file_doc [] [] []
+               | Raise _ => False
+               end
+   | None => False
+   end) /\
+  read_full fs (of_string "/w/root") false (-1) = Some (Ok (mkSD (ref_result ra_file_doc) [] [] [] [], 12%Z)).
+Proof. vm_compute. repeat split; reflexivity. Qed.
+
+(* ---- the side conditions, each forced by a document on which the conclusion fails ---------------------------- *)
+Definition ra_get (x : string) (d : rdoc) : option tree * option tree :=
+  (match eval_expressions (ref_sdict d [] [] []) with
+   | Some (Ok s) => alookup (KS (ra_s x)) (sd_data s)
+   | _ => None
+   end, alookup (KS (ra_s x)) (ref_result d)).
+
+(* no side condition, part of the statement: a reference to the literal None keeps its text (a NULL; b $a;  gives
+   b = '$a' in the library as well) *)
+Example C05_reference_none_finding :
+  let d := [(ra_s "a", VLit (Leaf SNone)); (ra_s "b", VRef 0 (ra_s "a"))] in
+  rdoc_okb d = true /\ ra_get "b" d = (Some (ra_str "$a"), Some (ra_str "$a")).
+Proof. vm_compute. split; reflexivity. Qed.
+
+(* a target that is also a key inside a nested dict: SDict.variables is one flat table, the later binding wins, so
+   the value depends on the order of the entries:  k 1; sub {k 5;} b $k;  gives 5,  sub {k 5;} k 1; b $k;  gives 1
+   (the library agrees on both) *)
+Example C05_reference_nested_key_finding :
+  let d1 := [(ra_s "k", VLit (Leaf (SInt 1))); (ra_s "sub", VLit (Dict [(KS (ra_s "k"), Leaf (SInt 5))])); (ra_s "b", VRef 0 (ra_s "k"))] in
+  let d2 := [(ra_s "sub", VLit (Dict [(KS (ra_s "k"), Leaf (SInt 5))])); (ra_s "k", VLit (Leaf (SInt 1))); (ra_s "b", VRef 0 (ra_s "k"))] in
+  rdoc_okb d1 = false /\ ra_get "b" d1 = (Some (Leaf (SInt 5)), Some (Leaf (SInt 1))) /\
+  rdoc_okb d2 = false /\ ra_get "b" d2 = (Some (Leaf (SInt 1)), Some (Leaf (SInt 1))).
+Proof. vm_compute. repeat split; reflexivity. Qed.
+
+(* a literal that spells a placeholder in use is overwritten by the write-back of that expression
+   (a 'EXPRESSION000001 x'; c $zz; b $zz2;  read in a fresh process: the library gives a = '$zz') *)
+Example C05_reference_placeholder_literal_finding :
+  let d := [(ra_s "a", VLit (ra_str "EXPRESSION000001 x")); (ra_s "c", VRef 0 (ra_s "zz")); (ra_s "b", VRef 1 (ra_s "zz2"))] in
+  rdoc_okb d = false /\ ra_get "a" d = (Some (ra_str "$zz2"), Some (ra_str "EXPRESSION000001 x")).
+Proof. vm_compute. split; reflexivity. Qed.
+
+(* a reference whose name spells a placeholder in use: its written-back text is taken for that placeholder
+   (a $EXPRESSION000001; b $zz;  read in a fresh process: the library gives a = '$zz' as well) *)
+Example C05_reference_placeholder_name_finding :
+  let d := [(ra_s "a", VRef 0 (ra_s "EXPRESSION000001")); (ra_s "b", VRef 1 (ra_s "zz"))] in
+  rdoc_okb d = false /\ ra_get "a" d = (Some (ra_str "$zz"), Some (ra_str "$EXPRESSION000001")).
+Proof. vm_compute. split; reflexivity. Qed.
+
+(* a referenced value whose text contains the word EXPRESSION (a string, or a key of a dict) counts as unresolved:
+   a 'EXPRESSIONx'; b $a;  leaves b = '$a'  (the library agrees) *)
+Example C05_reference_expression_word_finding :
+  let d := [(ra_s "a", VLit (ra_str "EXPRESSIONx")); (ra_s "b", VRef 0 (ra_s "a"))] in
+  let d' := [(ra_s "a", VLit (Dict [(KS (ra_s "EXPRESSIONS"), Leaf (SInt 1))])); (ra_s "b", VRef 0 (ra_s "a"))] in
+  rdoc_okb d = false /\ ra_get "b" d = (Some (ra_str "$a"), Some (ra_str "EXPRESSIONx")) /\
+  rdoc_okb d' = false /\ fst (ra_get "b" d') = Some (ra_str "$a").
+Proof. vm_compute. repeat split; reflexivity. Qed.
+
+(* a key named like a placeholder (capitals + six digits) whose value is its own name is taken for a circular entry
+   and is not a variable:  ABC123456 ABC123456; b $ABC123456;  leaves b = '$ABC123456'  (the library agrees) *)
+Example C05_reference_self_named_finding :
+  let d := [(ra_s "ABC123456", VLit (ra_str "ABC123456")); (ra_s "b", VRef 0 (ra_s "ABC123456"))] in
+  rdoc_okb d = false /\ ra_get "b" d = (Some (ra_str "$ABC123456"), Some (ra_str "ABC123456")).
+Proof. vm_compute. split; reflexivity. Qed.
+
+(* a referenced string with a dollar sign is no literal (the parser makes it an expression); as a literal it would be
+   followed as a reference / left unresolved *)
+Example C05_reference_dollar_literal_finding :
+  let d := [(ra_s "a", VLit (ra_str "1 $ 2")); (ra_s "b", VRef 0 (ra_s "a"))] in
+  rdoc_okb d = false /\ ra_get "b" d = (Some (ra_str "$a"), Some (ra_str "1 $ 2")).
+Proof. vm_compute. split; reflexivity. Qed.
+
+(* targets are names (word characters): an indexed reference is resolved by the library to the element -- outside this
+   document type (C05_indexed_reference treats lists of integers) *)
+Example C05_reference_indexed_finding :
+  let d := [(ra_s "l", VLit (Lst [Leaf (SInt 1); Leaf (SInt 2)])); (ra_s "b", VRef 0 (ra_s "l[1]"))] in
+  rdoc_okb d = false /\ ra_get "b" d = (Some (Leaf (SInt 2)), Some (ra_str "$l[1]")).
+Proof. vm_compute. split; reflexivity. Qed.
+
+(* distinct ids (the parser numbers the expressions) and distinct names (the data is a dict) *)
+Example C05_reference_ids_names_finding :
+  let d := [(ra_s "a", VLit (Leaf (SInt 1))); (ra_s "b", VRef 0 (ra_s "a")); (ra_s "c", VRef 0 (ra_s "zz"))] in
+  let d' := [(ra_s "a", VLit (Leaf (SInt 1))); (ra_s "a", VLit (Leaf (SInt 2))); (ra_s "b", VRef 0 (ra_s "a"))] in
+  rdoc_okb d = false /\ ra_get "c" d = (Some (Leaf (SInt 1)), Some (ra_str "$zz")) /\
+  rdoc_okb d' = false /\ ra_get "b" d' = (Some (Leaf (SInt 2)), Some (Leaf (SInt 1))).
+Proof. vm_compute. repeat split; reflexivity. Qed.
+
+(* ---- 2. the order of the entries ------------------------------------------------------------------------------ *)
+(* the denotation does not depend on the order; the reader answers on every permutation of the document, and every
+   key holds the same value *)
+Theorem C05_reference_order_independent_any_type : forall d d' lc bc inc, rdoc_okb d = true -> Permutation d d' ->
+  (forall y, denote_ref d y = denote_ref d' y) /\
+  exists s s', eval_expressions (ref_sdict d lc bc inc) = Some (Ok s) /\
+               eval_expressions (ref_sdict d' lc bc inc) = Some (Ok s') /\
+               map fst (sd_data s) = map KS (map fst d) /\ map fst (sd_data s') = map KS (map fst d') /\
+               forall x, alookup (KS x) (sd_data s) = alookup (KS x) (sd_data s').
+Proof. exact reference_order_independent_any_type. Qed.
+Print Assumptions C05_reference_order_independent_any_type.
+
+Example C05_reference_order_independent_any_type_nonvacuous :
+  rdoc_okb ra_doc = true /\ Permutation ra_doc (rev ra_doc) /\
+  exists s s', eval_expressions (ref_sdict ra_doc [] [] []) = Some (Ok s) /\
+               eval_expressions (ref_sdict (rev ra_doc) [] [] []) = Some (Ok s') /\
+               map fst (sd_data s') = rev (map fst (sd_data s)) /\
+               alookup (KS (ra_s "cc")) (sd_data s) = Some (ra_str "x 'y' ""z"" #;{") /\
+               alookup (KS (ra_s "cc")) (sd_data s') = Some (ra_str "x 'y' ""z"" #;{") /\
+               alookup (KS (ra_s "h")) (sd_data s') = alookup (KS (ra_s "sub")) (sd_data s).
+Proof.
+  assert (H : rdoc_okb ra_doc = true) by (vm_compute; reflexivity).
+  assert (Hp : Permutation ra_doc (rev ra_doc)) by apply Permutation_rev.
+  refine (conj H (conj Hp _)).
+  destruct (C05_reference_order_independent_any_type ra_doc (rev ra_doc) [] [] [] H Hp) as [_ [s [s' [H1 [H2 [K1 [K2 Hx]]]]]]].
+  exists s, s'. split; [exact H1|]. split; [exact H2|].
+  split; [rewrite K1, K2, map_rev, map_rev; reflexivity|].
+  assert (E1 : eval_expressions (ref_sdict ra_doc [] [] []) = Some (Ok (mkSD (ref_result ra_doc) [] [] [] [])))
+    by (apply C05_reference_document_any_type; exact H).
+  rewrite H1 in E1. inversion E1; subst s.
+  split; [vm_compute; reflexivity|]. split; [rewrite <- Hx; vm_compute; reflexivity|].
+  rewrite <- Hx. vm_compute. reflexivity.
+Qed.
+
+(* ================================================================================================== *)
+(* added from Properties/C05_add3.v (2026-10-01)                                              *)
+(* ================================================================================================== *)
+(* C05, additions (3): a reference to a key that is declared in an INCLUDED file only.  (Needs Proofs/AuditFix.v and
+   Proofs/RereadRead.v: this fragment has to stay behind them in _CoqProject.)
+   Vocabulary: rdoc / ref_sdict / ref_result / rdoc_okb as in C05_add2 (Proofs/RefAnyProofs.v);
+     plain_kvs dinc   the data of the included file: the entries (name, tree) as a dict
+     rlit_doc dinc    the same entries as literal entries of a reference document
+     st_plain_of m    the SDict with data m and empty side tables (Proofs/RereadRead.v) *)
+From Coq Require Import String.
+From Coq Require Import NArith ZArith List Bool Permutation.
+From DictIO Require Import Chars Str Value Scalar KeyPath SDict Layout Lexer TokParser Reader Expr Eval
+     MiscSpec EvalSpec FlatSpec IndexSpec E2EKeyTok CleanInvariant RereadRead RefAnyProofs RefAnyInclude.
+Import ListNotations.
+
+(* the root parses to a reference document with ONE include entry, the included file to a plain dict (no comments, no
+   expressions, no includes of its own) whose keys are not keys of the root; DictReader.read answers the result of the
+   concatenated document: every reference of the root is resolved against the declarations of BOTH files *)
+Theorem C05_include_declared_reference_document : forall fs root c u0 i dtext n path u droot dinc lc bc cnt0 cnt,
+  fs_lookup (norm_path root) fs = Some u0 ->
+  parse_unit true root c u0 = Ok (mkParsed (ref_sdict droot lc bc [(i, (dtext, n, path))]) cnt0) ->
+  fs_lookup (norm_path path) fs = Some u ->
+  parse_unit true path cnt0 u = Ok (mkParsed (st_plain_of (plain_kvs dinc)) cnt) ->
+  clean_state (ref_sdict droot lc bc [(i, (dtext, n, path))]) = true ->
+  wf (Dict (plain_kvs dinc)) = true -> ktree (fun _ => true) (Dict (plain_kvs dinc)) = true ->
+  rdoc_okb (droot ++ rlit_doc dinc) = true ->
+  read_full fs root true c =
+  Some (Ok (mkSD (ref_result (droot ++ rlit_doc dinc)) lc bc [(i, (dtext, n, path))] [], cnt)).
+Proof. exact include_declared_reference_document. Qed.
+Print Assumptions C05_include_declared_reference_document.
+
+(* one reference  k $y;  of the root, y declared in the included file only: k holds the included file's value of y *)
+Theorem C05_include_declared_reference : forall fs root c u0 i dtext n path u droot dinc lc bc cnt0 cnt k j y v,
+  fs_lookup (norm_path root) fs = Some u0 ->
+  parse_unit true root c u0 = Ok (mkParsed (ref_sdict droot lc bc [(i, (dtext, n, path))]) cnt0) ->
+  fs_lookup (norm_path path) fs = Some u ->
+  parse_unit true path cnt0 u = Ok (mkParsed (st_plain_of (plain_kvs dinc)) cnt) ->
+  clean_state (ref_sdict droot lc bc [(i, (dtext, n, path))]) = true ->
+  wf (Dict (plain_kvs dinc)) = true -> ktree (fun _ => true) (Dict (plain_kvs dinc)) = true ->
+  rdoc_okb (droot ++ rlit_doc dinc) = true ->
+  In (k, VRef j y) droot -> In (y, v) dinc -> v <> Leaf SNone ->
+  ~ In y (map fst droot) /\
+  exists s', read_full fs root true c = Some (Ok (s', cnt)) /\ sd_expr s' = [] /\
+             alookup (KS y) (sd_data s') = Some v /\ alookup (KS k) (sd_data s') = Some v.
+Proof. exact include_declared_reference. Qed.
+Print Assumptions C05_include_declared_reference.
+
+Definition ri_s (s : string) : str := of_string s.
+Definition ri_root_u : funit := FNative (of_string "#include 'inc'
+k $y; a 1; kk $k; u $nowhere; m $l;
+").
+Definition ri_inc_u : funit := FNative (of_string "y 'v w'; z 2.5; l (1 2);
+").
+Definition ri_fs : fsys := [ (of_string "/w/root", ri_root_u); (of_string "/w/inc", ri_inc_u) ].
+(* what the parser delivers for the two files *)
+Definition ri_root : rdoc :=
+  [ (ri_s "INCLUDE000000", VLit (Leaf (SStr (ri_s "INCLUDE000000"))));
+    (ri_s "k", VRef 1 (ri_s "y")); (ri_s "a", VLit (Leaf (SInt 1))); (ri_s "kk", VRef 2 (ri_s "k"));
+    (ri_s "u", VRef 3 (ri_s "nowhere")); (ri_s "m", VRef 4 (ri_s "l")) ].
+Definition ri_inc : list (str * tree) :=
+  [ (ri_s "y", Leaf (SStr (ri_s "v w"))); (ri_s "z", Leaf (SFloat (ri_s "2.5")));
+    (ri_s "l", Lst [Leaf (SInt 1); Leaf (SInt 2)]) ].
+Definition ri_dtext : str := of_string "#include 'inc'".
+
+Lemma ri_h1 : fs_lookup (norm_path (of_string "/w/root")) ri_fs = Some ri_root_u.
+Proof. vm_compute. reflexivity. Qed.
+Lemma ri_h2 : parse_unit true (of_string "/w/root") (-1) ri_root_u =
+              Ok (mkParsed (ref_sdict ri_root [] [] [(0%N, (ri_dtext, of_string "inc", of_string "/w/inc"))]) 4%Z).
+Proof. vm_compute. reflexivity. Qed.
+Lemma ri_h3 : fs_lookup (norm_path (of_string "/w/inc")) ri_fs = Some ri_inc_u.
+Proof. vm_compute. reflexivity. Qed.
+Lemma ri_h4 : parse_unit true (of_string "/w/inc") 4 ri_inc_u = Ok (mkParsed (st_plain_of (plain_kvs ri_inc)) 5%Z).
+Proof. vm_compute. reflexivity. Qed.
+Lemma ri_h5 : clean_state (ref_sdict ri_root [] [] [(0%N, (ri_dtext, of_string "inc", of_string "/w/inc"))]) = true.
+Proof. vm_compute. reflexivity. Qed.
+Lemma ri_h6 : wf (Dict (plain_kvs ri_inc)) = true.
+Proof. vm_compute. reflexivity. Qed.
+Lemma ri_h7 : ktree (fun _ => true) (Dict (plain_kvs ri_inc)) = true.
+Proof. vm_compute. reflexivity. Qed.
+Lemma ri_h8 : rdoc_okb (ri_root ++ rlit_doc ri_inc) = true.
+Proof. vm_compute. reflexivity. Qed.
+
+(* a string with a blank and a list, both declared in the included file only; a chain through the root (kk -> k -> y);
+   a dangling reference next to them *)
+Example C05_include_declared_reference_nonvacuous :
+  ~ In (ri_s "y") (map fst ri_root) /\
+  exists s', read_full ri_fs (of_string "/w/root") true (-1) = Some (Ok (s', 5%Z)) /\ sd_expr s' = [] /\
+    alookup (KS (ri_s "y")) (sd_data s') = Some (Leaf (SStr (ri_s "v w"))) /\
+    alookup (KS (ri_s "k")) (sd_data s') = Some (Leaf (SStr (ri_s "v w"))).
+Proof.
+  apply (C05_include_declared_reference ri_fs (of_string "/w/root") (-1)%Z ri_root_u 0%N ri_dtext (of_string "inc")
+           (of_string "/w/inc") ri_inc_u ri_root ri_inc [] [] 4%Z 5%Z (ri_s "k") 1%N (ri_s "y") (Leaf (SStr (ri_s "v w")))
+           ri_h1 ri_h2 ri_h3 ri_h4 ri_h5 ri_h6 ri_h7 ri_h8).
+  - unfold ri_root. cbn [In]. tauto.
+  - unfold ri_inc. cbn [In]. tauto.
+  - discriminate.
+Qed.
+
+Example C05_include_declared_reference_document_nonvacuous :
+  exists s', read_full ri_fs (of_string "/w/root") true (-1) = Some (Ok (s', 5%Z)) /\
+    sd_data s' =
+    [ (KS (ri_s "INCLUDE000000"), Leaf (SStr (ri_s "INCLUDE000000")));
+      (KS (ri_s "k"), Leaf (SStr (ri_s "v w"))); (KS (ri_s "a"), Leaf (SInt 1));
+      (KS (ri_s "kk"), Leaf (SStr (ri_s "v w"))); (KS (ri_s "u"), Leaf (SStr (ri_s "$nowhere")));
+      (KS (ri_s "m"), Lst [Leaf (SInt 1); Leaf (SInt 2)]);
+      (KS (ri_s "y"), Leaf (SStr (ri_s "v w"))); (KS (ri_s "z"), Leaf (SFloat (ri_s "2.5")));
+      (KS (ri_s "l"), Lst [Leaf (SInt 1); Leaf (SInt 2)]) ].
+Proof.
+  eexists. split.
+  - exact (C05_include_declared_reference_document ri_fs (of_string "/w/root") (-1)%Z ri_root_u 0%N ri_dtext (of_string "inc")
+             (of_string "/w/inc") ri_inc_u ri_root ri_inc [] [] 4%Z 5%Z ri_h1 ri_h2 ri_h3 ri_h4 ri_h5 ri_h6 ri_h7 ri_h8).
+  - vm_compute. reflexivity.
+Qed.
+
+(* the keys of the included file must be new: a key that the root declares as well keeps the ROOT's value, and the
+   reference takes that one (#include 'inc' k $y; y 1;  with  y 'v w';  in inc gives k = 1; the library agrees) *)
+Example C05_include_redeclared_finding :
+  let fs : fsys := [ (of_string "/w/root", FNative (of_string "#include 'inc'
+k $y; y 1;
+")); (of_string "/w/inc", FNative (of_string "y 'v w';
+")) ] in
+  let droot := [ (ri_s "INCLUDE000000", VLit (Leaf (SStr (ri_s "INCLUDE000000"))));
+                 (ri_s "k", VRef 1 (ri_s "y")); (ri_s "y", VLit (Leaf (SInt 1))) ] in
+  let dinc := [ (ri_s "y", Leaf (SStr (ri_s "v w"))) ] in
+  rdoc_okb (droot ++ rlit_doc dinc) = false /\
+  exists s' c', read_full fs (of_string "/w/root") true (-1) = Some (Ok (s', c')) /\
+    alookup (KS (ri_s "k")) (sd_data s') = Some (Leaf (SInt 1)) /\
+    alookup (KS (ri_s "y")) (sd_data s') = Some (Leaf (SInt 1)).
+Proof. vm_compute. split; [reflexivity|]. eexists. eexists. repeat split; reflexivity. Qed.
